@@ -1,6 +1,7 @@
 package zonemodel
 
 import (
+	"encoding/base64"
 	"net"
 	"time"
 
@@ -69,7 +70,12 @@ var Samples = []Sample{
 	{"AAAA", 28, []string{"2001:db8::1"}, func() dns.RR {
 		return &dns.AAAA{AAAA: net.IP{0x20, 0x01, 0x0d, 0xb8, 0, 0, 0, 0, 0, 0, 0, 0, 0, 0, 0, 1}}
 	}},
-	{"LOC", 29, []string{"42", "21", "54", "N", "71", "06", "18", "W", "-24m", "30m"}, nil},
+	// RFC 1876: size 30 m = 3e3 cm -> 0x33, default precisions 10000 m = 1e6 cm -> 0x16 and
+	// 10 m = 1e3 cm -> 0x13; latitude 2^31 + 152514 s, longitude 2^31 - 255978 s (in 1/1000 s);
+	// altitude -24 m above the -100000 m base, in cm.
+	{"LOC", 29, []string{"42", "21", "54", "N", "71", "06", "18", "W", "-24m", "30m"}, func() dns.RR {
+		return &dns.LOC{Version: 0, Size: 0x33, HorizPre: 0x16, VertPre: 0x13, Latitude: 1<<31 + 152514000, Longitude: 1<<31 - 255978000, Altitude: 10000000 - 2400}
+	}},
 	{"NXT", 30, []string{"next.example.net.", "A", "MX"}, func() dns.RR {
 		return &dns.NXT{NSEC: dns.NSEC{NextDomain: "next.example.net.", TypeBitMap: []uint16{1, 15}}}
 	}},
@@ -108,7 +114,9 @@ var Samples = []Sample{
 	{"DHCID", 49, []string{"AAIBY2/AuCccgoJbsaxcQc9TUapptP69lOjxfNuVAA2kjEA="}, func() dns.RR {
 		return &dns.DHCID{Digest: "AAIBY2/AuCccgoJbsaxcQc9TUapptP69lOjxfNuVAA2kjEA="}
 	}},
-	{"NSEC3", 50, []string{"1", "1", "12", "aabbccdd", "2vptu5timamqttgl4luu9kg21e0aor3s", "A", "RRSIG"}, nil},
+	{"NSEC3", 50, []string{"1", "1", "12", "aabbccdd", "2vptu5timamqttgl4luu9kg21e0aor3s", "A", "RRSIG"}, func() dns.RR {
+		return &dns.NSEC3{Hash: 1, Flags: 1, Iterations: 12, SaltLength: 4, Salt: "aabbccdd", HashLength: 20, NextDomain: "2vptu5timamqttgl4luu9kg21e0aor3s", TypeBitMap: []uint16{1, 46}}
+	}},
 	{"NSEC3PARAM", 51, []string{"1", "0", "12", "aabbccdd"}, func() dns.RR {
 		return &dns.NSEC3PARAM{Hash: 1, Flags: 0, Iterations: 12, SaltLength: 4, Salt: "aabbccdd"}
 	}},
@@ -118,7 +126,11 @@ var Samples = []Sample{
 	{"SMIMEA", 53, []string{"3", "1", "1", "d2abde240d7cd3ee6b4b28c54df034b97983a1d16e8a410e4561cb106618e971"}, func() dns.RR {
 		return &dns.SMIMEA{Usage: 3, Selector: 1, MatchingType: 1, Certificate: "d2abde240d7cd3ee6b4b28c54df034b97983a1d16e8a410e4561cb106618e971"}
 	}},
-	{"HIP", 55, []string{"2", "200100107B1A74DF365639CC39F1D578", "AwEAAbdxyhNuSutc5EMzxTs9LBPCIkOFH8cIvM4p9+LrV4e19WzK00+CI6zBCQTdtWsuxKbWIy87UOoJTwkUs7lBu+Upr1gsNrut79ryra+bSRGQb1slImA8YVJyuIDsj7kwzG7jnERNqnWxZ48AWkskmdHaVDP4BcelrTI3rMXdXF5D", "rvs.example.net."}, nil},
+	{"HIP", 55, []string{"2", "200100107B1A74DF365639CC39F1D578", "AwEAAbdxyhNuSutc5EMzxTs9LBPCIkOFH8cIvM4p9+LrV4e19WzK00+CI6zBCQTdtWsuxKbWIy87UOoJTwkUs7lBu+Upr1gsNrut79ryra+bSRGQb1slImA8YVJyuIDsj7kwzG7jnERNqnWxZ48AWkskmdHaVDP4BcelrTI3rMXdXF5D", "rvs.example.net."}, func() dns.RR {
+		pk := "AwEAAbdxyhNuSutc5EMzxTs9LBPCIkOFH8cIvM4p9+LrV4e19WzK00+CI6zBCQTdtWsuxKbWIy87UOoJTwkUs7lBu+Upr1gsNrut79ryra+bSRGQb1slImA8YVJyuIDsj7kwzG7jnERNqnWxZ48AWkskmdHaVDP4BcelrTI3rMXdXF5D"
+		raw, _ := base64.StdEncoding.DecodeString(pk)
+		return &dns.HIP{HitLength: 16, PublicKeyAlgorithm: 2, PublicKeyLength: uint16(len(raw)), Hit: "200100107B1A74DF365639CC39F1D578", PublicKey: pk, RendezvousServers: []string{"rvs.example.net."}}
+	}},
 	{"NINFO", 56, []string{`"ninfo text"`}, func() dns.RR { return &dns.NINFO{ZSData: []string{"ninfo text"}} }},
 	{"RKEY", 57, []string{"0", "3", "8", "AQIDBA=="}, func() dns.RR {
 		return &dns.RKEY{Flags: 0, Protocol: 3, Algorithm: 8, PublicKey: "AQIDBA=="}
@@ -139,8 +151,12 @@ var Samples = []Sample{
 	{"ZONEMD", 63, []string{"2018031900", "1", "1", "c68090d90a7aed716bc459f9340e3d7c1370d4d24b7e2fc3a1ddc0b9a87153b9a9713b3c9ae5cc27777f98b8e730044c"}, func() dns.RR {
 		return &dns.ZONEMD{Serial: 2018031900, Scheme: 1, Hash: 1, Digest: "c68090d90a7aed716bc459f9340e3d7c1370d4d24b7e2fc3a1ddc0b9a87153b9a9713b3c9ae5cc27777f98b8e730044c"}
 	}},
-	{"SVCB", 64, []string{"1", "svc.example.net.", "alpn=h2", "port=8443"}, nil},
-	{"HTTPS", 65, []string{"1", ".", "alpn=h2,h3"}, nil},
+	{"SVCB", 64, []string{"1", "svc.example.net.", "alpn=h2", "port=8443"}, func() dns.RR {
+		return &dns.SVCB{Priority: 1, Target: "svc.example.net.", Value: []dns.SVCBKeyValue{&dns.SVCBAlpn{Alpn: []string{"h2"}}, &dns.SVCBPort{Port: 8443}}}
+	}},
+	{"HTTPS", 65, []string{"1", ".", "alpn=h2,h3"}, func() dns.RR {
+		return &dns.HTTPS{SVCB: dns.SVCB{Priority: 1, Target: ".", Value: []dns.SVCBKeyValue{&dns.SVCBAlpn{Alpn: []string{"h2", "h3"}}}}}
+	}},
 	{"SPF", 99, []string{`"v=spf1 -all"`}, func() dns.RR { return &dns.SPF{Txt: []string{"v=spf1 -all"}} }},
 	{"UINFO", 100, []string{`"user info"`}, func() dns.RR { return &dns.UINFO{Uinfo: "user info"} }},
 	{"UID", 101, []string{"1234"}, func() dns.RR { return &dns.UID{Uid: 1234} }},
